@@ -6,8 +6,14 @@ use crate::types::*;
 pub struct Bounds { pub lmax: usize, pub cmax: usize }
 
 pub fn bounds(prop: Prop, tier: Tier) -> Bounds {
-    let _ = prop;
-    match tier { Tier::Quick => Bounds { lmax: 3, cmax: 6 }, Tier::Thorough => Bounds { lmax: 5, cmax: 12 } }
+    // properties whose edge alphabets are small get a deeper length / capacity bound
+    let cheap = matches!(prop, Prop::C04 | Prop::C07 | Prop::C08 | Prop::C09 | Prop::C11 | Prop::C13 | Prop::C17);
+    match (tier, cheap) {
+        (Tier::Quick, false) => Bounds { lmax: 3, cmax: 6 },
+        (Tier::Quick, true) => Bounds { lmax: 4, cmax: 8 },
+        (Tier::Thorough, false) => Bounds { lmax: 5, cmax: 12 },
+        (Tier::Thorough, true) => Bounds { lmax: 6, cmax: 14 },
+    }
 }
 
 pub fn spare_modes(prop: Prop, tier: Tier) -> Vec<Spare> {
